@@ -492,7 +492,7 @@ def run_scan(ctx, pid, run, idx, replay, BUILD, ROOT):
         "programs": st["cases"], "disagreements_checked": ndiff,
         "rule": SCAN_RULE, "samples": st["samples"][:5],
         "input_distribution": {k: st[k] for k in ("result_kinds", "error_classes", "column_script_modes", "null_cells", "cells",
-                                                  "foreign_columns", "ok_with_permuted_columns", "unknown_error_wordings")},
+                                                  "foreign_columns", "ok_with_permuted_columns", "getall_value_cases", "unknown_error_wordings")},
         "exhaustive": False,
     }
     return res
@@ -651,6 +651,11 @@ def proj_iter_c18(case, line):
     return line if "PANIC" in line or "HANG" in line else "RETURNED"
 
 
+def proj_scan_getall(line):
+    """C15 at value level: the GetAll cases of the scan run"""
+    return line if line.startswith(("GETALL", "NOROWS")) else ""
+
+
 def proj_scan_c18(line):
     return line if line.startswith(("PANIC", "HANG")) else "RETURNED"
 
@@ -676,7 +681,8 @@ PROPS = {
                      iter_run_spec(proj_iter_full, ["C20"], nq=2000)]},
     "C13": {"runs": [iter_run_spec(proj_iter_account, ["C13"])]},
     "C14": {"runs": [iter_run_spec(proj_iter_full, ["C14"])]},
-    "C15": {"runs": [iter_run_spec(proj_iter_c15, ["C15"])]},
+    "C15": {"runs": [iter_run_spec(proj_iter_c15, ["C15"]),
+                     {"kind": "scan", "n": {"quick": 3000, "thorough": 100000}, "oracle_props": ["C15"], "project": proj_scan_getall}]},
     "C03": {"uses_genconsts": True, "runs": [bind_run(proj_bind_c03, ["C03"])]},
     "C04": {"uses_genconsts": True, "runs": [bind_run(proj_bind_c04, ["C04"])]},
     "C05": {"uses_genconsts": True, "runs": [bind_run(proj_bind_c05, ["C05"]), tx_run_spec(["C05"], compare=True, nq=200)]},
